@@ -66,9 +66,21 @@ func genC01(t *rapid.T) C01Scn {
 			DelAB: genDelays(t, "dab"), DelBA: genDelays(t, "dba")})
 	}
 	nev := rapid.IntRange(0, 8).Draw(t, "nev")
+	// one scenario in six: nodes that have been up for hundreds of update periods before the first event, one of which then restarts
+	// (what a restarted node is remembered by - epoch, sequence number - is then far ahead of what its new incarnation sends)
+	aged := rapid.IntRange(0, 5).Draw(t, "aged") == 0
+	agedAt := -1
+	if aged {
+		s.RouteMs, s.InitWaitMs = 25, 8000
+		nev = rapid.IntRange(2, 8).Draw(t, "nevAged")
+		agedAt = rapid.IntRange(0, nev-2).Draw(t, "agedAt")
+	}
 	silentBudget := 1
 	for i := 0; i < nev; i++ {
 		k := rapid.SampledFrom([]string{"linkDown", "linkDown", "linkUp", "linkUp", "silent", "nodeStop", "nodeRestart"}).Draw(t, "kind")
+		if i == agedAt {
+			k = "nodeRestart"
+		}
 		if k == "silent" {
 			if silentBudget == 0 {
 				k = "linkDown"
@@ -85,7 +97,7 @@ func genC01(t *rapid.T) C01Scn {
 func TestC01(t *testing.T) {
 	st := vx.NewStats("C01", "mesh", "real in-process meshes of 2-7 nodes over ordered in-memory links (spanning tree + extra edges, sometimes two "+
 		"components; costs multiples of 0.25 with deliberate ties, expressed as backend default or per-node override) with 0-8 events "+
-		"{linkDown, linkUp, silent failure, nodeStop, nodeRestart} at drawn gaps and per-link delay lists; oracle = Floyd-Warshall on the true live graph; "+
+		"{linkDown, linkUp, silent failure, nodeStop, nodeRestart} at drawn gaps and per-link delay lists; one scenario in six runs with a 25 ms update period and 8 s of uptime (320 updates per node) before a node restart; oracle = Floyd-Warshall on the true live graph; "+
 		"non-trivial = >=3 nodes and (events changed some node's expected table, or a multi-hop route with a cost tie); distinct by canonical JSON")
 	defer st.Flush()
 	r := &vx.Runner{Name: "C01", Timeout: 150 * time.Second, Recycle: 40}
